@@ -365,3 +365,20 @@ def corpus(tier, families=FAMILIES, depth=2, k1=1, cap2=None, coarse=None):
             level3 = expand(reps2, companion("quick")[:6], tier, families, light=True)
             out += level3
     return out
+
+
+def spines():
+    """Depth-3 'spines' unary . reduce . binary (and unary . binary . reduce) that the level-wise pruning cannot guarantee:
+    every outer unary op over every reduction op over every combining op, on two operand pairs."""
+    L = leaves("quick")["real"]
+    x = V("x", "real")
+    pairs = [(L[3], L[2]), (L[3], ("B", "mul", L[1], x)), (L[1], L[3])]
+    out = []
+    for u in ("neg", "exp", "log", "reciprocal", "abs"):
+        for r in ("add", "mul", "max", "min", "logaddexp"):
+            for b in ("add", "mul", "sub", "max", "logaddexp"):
+                for a1, a2 in pairs:
+                    for names in ((("i", 2),), (("j", 3),), (("i", 2), ("j", 3))):
+                        out.append(("U", u, (), ("R", r, ("B", b, a1, a2), names)))
+                        out.append(("U", u, (), ("B", b, ("R", r, a1, names), a2)))
+    return [e for e in out if well_typed(e)]
